@@ -164,7 +164,16 @@ def _post_evans(snap, res, graph, *, latents=None, tag=None):
     ref = RG.from_nx(graph)
     extra = set()
     if latents is not None:
-        extra = {latents} if isinstance(latents, Variable) else set(latents)
+        if isinstance(latents, Variable):
+            extra = {latents}
+        elif isinstance(latents, (set, frozenset, list, tuple)):
+            extra = set(latents)
+        else:  # a one-shot iterable: consumed by the call; the driver's record stands in, otherwise not judged
+            c = kernel.LOG.case
+            if not (isinstance(c, dict) and isinstance(c.get("latents"), list)):
+                kernel.count("C16:evans-one-shot-latents-not-judged")
+                return
+            extra = {Variable(x) for x in c["latents"]}
     nodes = set(ref.V)
     edges = set(ref.D)
     lat = set(extra)
@@ -312,6 +321,29 @@ def run_dag(ctx, dd, rng, check_sep=False):
     has_parented_latent = any(v in dd["latent"] for _, v in dd["edges"])
     ctx.case(dag_key(dd), res is not None and (has_parented_latent or len(dd["latent"]) >= 2),
              sample={"dag": dd, "simplified": _fmt_dag(dag_snapshot(res.graph, TAG)) if res else None})
+    if res is not None and rng.random() < 0.2:
+        # history: the simplified DAG is edited by its owner (a parent for one of the latents that are left - among them
+        # the made-up <latent>_prime nodes - or another node marked latent) and simplified again
+        import networkx as nx
+
+        d = res.graph
+        lat = [n for n, a in d.nodes(data=True) if a.get(TAG)]
+        obs = [n for n, a in d.nodes(data=True) if not a.get(TAG)]
+        if lat and obs and rng.random() < 0.7:
+            l = rng.choice(sorted(lat, key=str))
+            cand = [a for a in sorted(obs, key=str) if a not in nx.descendants(d, l)]
+            if cand:
+                d.add_edge(rng.choice(cand), l)
+        elif len(obs) >= 3:
+            d.nodes[rng.choice(sorted(obs, key=str))][TAG] = True
+        kernel.LOG.reset_case({"dag": dd, "history": "edited-after-simplification"})
+        try:
+            simplify_latent_dag(d, tag=TAG)
+            kernel.count("C16:second-simplification-after-edit")
+        except Exception as e:  # noqa: BLE001
+            kernel.violation(PROP, "total", f"simplify_latent_dag raised {type(e).__name__}: {e} on an edited simplified DAG "
+                             f"(original {dd})", case={"dag": dd})
+        return
     if res is None or not check_sep:
         return
     # consequences: separations among observed nodes and identifiability verdicts are unchanged
@@ -346,8 +378,19 @@ def run_roundtrip(ctx, gd):
     g = gg.to_nx(gd)
     kernel.LOG.reset_case({"graph": gd})
     ref = RG.from_nx(g)
+    # the options of the conversion: latent-name prefix (also one that clashes with the node names), first number, tag
+    k = sum(map(ord, gg.key(gd)))
+    kw = {}
+    if k % 3 == 1:
+        kw["prefix"] = ("L", "V", "u_", "T_")[k // 3 % 4]
+    if k % 5 in (1, 2):
+        kw["start"] = (1, 7)[k % 5 - 1]
+    tag = (None, "latent_flag")[k // 7 % 2]
+    if tag:
+        kw["tag"] = tag
+    kernel.count("C16:roundtrip-options:" + ",".join(sorted(kw)) if kw else "C16:roundtrip-options:defaults")
     try:
-        back = NxMixedGraph.from_latent_variable_dag(g.to_latent_variable_dag())
+        back = NxMixedGraph.from_latent_variable_dag(g.to_latent_variable_dag(**kw), **({"tag": tag} if tag else {}))
     except Exception as e:  # noqa: BLE001
         kernel.violation(PROP, "roundtrip", f"round trip raised {type(e).__name__}: {e} on {gd}", case={"graph": gd})
         return
@@ -370,8 +413,13 @@ def run_evans(ctx, gd, rng):
     k = rng.randint(0, max(0, len(gd["nodes"]) - 2))
     lat = rng.sample(sorted(gd["nodes"]), k)
     kernel.LOG.reset_case({"graph": gd, "latents": lat})
+    lv = [Variable(x) for x in lat]
+    form = sum(map(ord, gg.key(gd) + "".join(lat))) % 6
+    arg = (None if not lat else lv if form == 0 else set(lv) if form == 1 else tuple(lv) if form == 2 else
+           frozenset(lv) if form == 3 else (v for v in lv) if form == 4 else (lv[0] if len(lv) == 1 else lv))
+    kw = {"tag": "latent_flag"} if form % 2 else {}
     try:
-        evans_simplify(g, latents=[Variable(x) for x in lat] if lat else None)
+        evans_simplify(g, latents=arg, **kw)
     except Exception as e:  # noqa: BLE001
         kernel.violation(PROP, "total", f"evans_simplify raised {type(e).__name__}: {e} on {gd} latents {lat}",
                          case={"graph": gd, "latents": lat})
@@ -449,6 +497,11 @@ def replay(case):
             pass
 
     rng = random.Random(0)
+    if "dag" in case and isinstance(case["dag"], dict) and "observed" in case["dag"]:
+        # the monitor's own record of the DAG it was handed (also the edited DAGs of the histories)
+        d = case["dag"]
+        case = dict(case, dag={"nodes": list(d["observed"]) + list(d["latent"]), "latent": list(d["latent"]),
+                               "edges": [e.split("->") for e in d["edges"]]})
     if "dag" in case and isinstance(case["dag"], dict) and "edges" in case["dag"] and "nodes" in case["dag"]:
         run_dag(_C(), case["dag"], rng, check_sep=True)
     elif "graph" in case and "latents" in case:
